@@ -1,6 +1,7 @@
 import GramModel.Lemmas.ArmsTie
 import GramModel.Lemmas.Eval
 import GramModel.Lemmas.DeBruijn
+import GramModel.Lemmas.BigStep
 
 /-!
 # C02 — running a program yields the value the call-by-value semantics prescribes
@@ -211,3 +212,153 @@ left operand steps first and must then be a value, then the right operand steps 
 two congruence nodes keep the operator and the places of the operands. -/
 def C02_step_shape_tie_stmt : Prop := stepShapeOK = true
 theorem C02_step_shape_tie : C02_step_shape_tie_stmt := by unfold C02_step_shape_tie_stmt; decide
+
+/-! ## Natural semantics: the value `gram run` must produce, stated as the language definition would
+
+`Big t v` (`t ⇓ v`, `Lemmas/BigStep.lean`) has one rule per construct: values evaluate to themselves;
+`f a`: `f ⇓ λx. b`, `a ⇓ v`, `b[x := v] ⇓ r`; `a op b`: `a ⇓ x`, `b ⇓ y`, `r` the primitive on `x`, `y`;
+`-a`; `if c then a else b`: `c ⇓ true`, `a ⇓ r` (the other branch is absent from the premises) and
+dually; a group: the first definition `⇓ v`, the recursive unfolding of `v` is substituted into the rest
+(`letShrink`, the very term `step` produces), and the shrunken group `⇓ r`; the empty group is its body.
+It is equivalent to the small-step semantics, to the evaluator model, and to the fuelled big-step
+interpreter `bigEval`, the Lean counterpart of the independent reference interpreter of the harness. -/
+
+/-- The group rule of `⇓` substitutes exactly what the evaluator model substitutes. -/
+def C02_big_group_rule_is_step_stmt : Prop :=
+  ∀ (x : Name) (ann v : Tm) (rest : Defs) (b : Tm), isValue v = true →
+    step (.letg (.cons x ann v rest) b) = some (letShrink x ann v rest b)
+theorem C02_big_group_rule_is_step : C02_big_group_rule_is_step_stmt := letShrink_is_step
+
+/-- The rules of `⇓` determine it construct by construct (inversion): this is the relation read as a
+definition of the language.  Variables and holes have no value. -/
+def C02_big_rules_stmt : Prop :=
+  (∀ (t v : Tm), isValue t = true → (Big t v ↔ v = t)) ∧
+  (∀ (f a r : Tm), Big (.app f a) r ↔
+      ∃ x im d b v, Big f (.lam x im d b) ∧ Big a v ∧ Big (openT b 0 v 0) r) ∧
+  (∀ (a r : Tm), Big (.neg a) r ↔ ∃ n, Big a (.lit n) ∧ r = .lit (-n)) ∧
+  (∀ (op : BinOp) (a b r : Tm), Big (.bin op a b) r ↔
+      ∃ x y, Big a (.lit x) ∧ Big b (.lit y) ∧ delta op x y = some r) ∧
+  (∀ (c a b r : Tm), Big (.ite c a b) r ↔ (Big c .tt ∧ Big a r) ∨ (Big c .ff ∧ Big b r)) ∧
+  (∀ (b r : Tm), Big (.letg .nil b) r ↔ Big b r) ∧
+  (∀ (x : Name) (ann d : Tm) (rest : Defs) (b r : Tm), Big (.letg (.cons x ann d rest) b) r ↔
+      ∃ v, Big d v ∧ Big (letShrink x ann v rest b) r) ∧
+  (∀ (x : Name) (i : Nat) (v : Tm), ¬ Big (.var x i) v) ∧
+  (∀ (id s : Nat) (v : Tm), ¬ Big (.hole id s) v)
+theorem C02_big_rules : C02_big_rules_stmt :=
+  ⟨fun _ _ hv => Big_val_iff hv, fun _ _ _ => Big_app_iff, fun _ _ => Big_neg_iff,
+   fun _ _ _ _ => Big_bin_iff, fun _ _ _ _ => Big_ite_iff, fun _ _ => Big_letNil_iff,
+   fun _ _ _ _ _ _ => Big_letCons_iff, fun _ _ _ => Big_var_none, fun _ _ _ => Big_hole_none⟩
+
+/-- Soundness: whatever the natural semantics derives, the small-step semantics reaches, and it is a
+value. -/
+def C02_big_sound_stmt : Prop := ∀ (t v : Tm), Big t v → Steps t v ∧ isValue v = true
+theorem C02_big_sound : C02_big_sound_stmt := fun _ _ h => Big_sound h
+
+/-- One small step backwards preserves the big-step value. -/
+def C02_big_expansion_stmt : Prop := ∀ (t t' v : Tm), Step t t' → Big t' v → Big t v
+theorem C02_big_expansion : C02_big_expansion_stmt := fun _ _ _ hs h => Step_Big hs h
+
+/-- Completeness: every terminating small-step run is a derivation of the natural semantics. -/
+def C02_big_complete_stmt : Prop := ∀ (t v : Tm), Steps t v → isValue v = true → Big t v
+theorem C02_big_complete : C02_big_complete_stmt := fun _ _ h hv => Big_complete h hv
+
+/-- `t ⇓ v` iff the evaluator model stops at the value `v`. -/
+def C02_big_iff_eval_stmt : Prop :=
+  ∀ (t v : Tm), Big t v ↔ ∃ n, evalFuel n t = v ∧ isValue v = true
+theorem C02_big_iff_eval : C02_big_iff_eval_stmt := fun _ _ => Big_iff_eval
+
+/-- A program has at most one value. -/
+def C02_big_deterministic_stmt : Prop := ∀ (t v w : Tm), Big t v → Big t w → v = w
+theorem C02_big_deterministic : C02_big_deterministic_stmt := fun _ _ _ h1 h2 => Big_deterministic h1 h2
+
+/-- The fuelled big-step interpreter only returns what the natural semantics derives ... -/
+def C02_bigEval_sound_stmt : Prop := ∀ (n : Nat) (t v : Tm), bigEval n t = some v → Big t v
+theorem C02_bigEval_sound : C02_bigEval_sound_stmt := bigEval_sound
+
+/-- ... and finds every derivation, for every fuel from some point on. -/
+def C02_bigEval_complete_stmt : Prop :=
+  ∀ (t v : Tm), Big t v → ∃ n, ∀ m, n ≤ m → bigEval m t = some v
+theorem C02_bigEval_complete : C02_bigEval_complete_stmt := fun _ _ h => bigEval_complete_ge h
+
+/-- More fuel never changes an answer of the interpreter. -/
+def C02_bigEval_mono_stmt : Prop :=
+  ∀ (n m : Nat) (t v : Tm), bigEval n t = some v → n ≤ m → bigEval m t = some v
+theorem C02_bigEval_mono : C02_bigEval_mono_stmt := fun _ _ _ _ h hm => bigEval_mono h hm
+
+/-- The two interpreters agree: the big-step one answers `v` (for some fuel) iff the small-step
+evaluator model stops at the value `v` (for some fuel). -/
+def C02_bigEval_iff_evalFuel_stmt : Prop :=
+  ∀ (t v : Tm), (∃ n, bigEval n t = some v) ↔ ∃ n, evalFuel n t = v ∧ isValue v = true
+theorem C02_bigEval_iff_evalFuel : C02_bigEval_iff_evalFuel_stmt := fun _ _ => bigEval_iff_evalFuel
+
+/-- A program has a big-step value iff the evaluator model reaches a value: stuck and divergent
+programs have none. -/
+def C02_big_value_iff_stmt : Prop :=
+  ∀ (t : Tm), (∃ v, Big t v) ↔ (∃ n, isValue (evalFuel n t) = true)
+theorem C02_big_value_iff : C02_big_value_iff_stmt := fun _ => Big_exists_iff
+
+/-- A stuck term (not a value, no step) has no value, and the interpreter answers `none` on it whatever
+the fuel. -/
+def C02_big_stuck_stmt : Prop :=
+  ∀ (t : Tm), step t = none → isValue t = false → (¬ ∃ v, Big t v) ∧ ∀ n, bigEval n t = none
+theorem C02_big_stuck : C02_big_stuck_stmt :=
+  fun _ hs hv => ⟨Big_stuck hs hv, bigEval_none_of_no_value (Big_stuck hs hv)⟩
+
+/-! ### Non-vacuity: kernel-checked runs of both interpreters -/
+
+/-- `fact = λn. if n == 0 then 1 else n * fact (n - 1); fact 3` -/
+def C02_fact3 : Tm :=
+  .letg (.cons 0 (.pi 1 false .int .int)
+          (.lam 2 false .int
+            (.ite (.bin .eq (.var 2 0) (.lit 0)) (.lit 1)
+              (.bin .prod (.var 2 0) (.app (.var 0 1) (.bin .diff (.var 2 0) (.lit 1))))))
+          .nil)
+        (.app (.var 0 0) (.lit 3))
+example : bigEval 20 C02_fact3 = some (.lit 6) := by decide
+example : evalFuel 100 C02_fact3 = .lit 6 := by decide
+example : Big C02_fact3 (.lit 6) := bigEval_sound 20 _ _ (by decide)
+
+/-- `if false then 1 / 0 else 5`: only the chosen branch is evaluated. -/
+def C02_skip_div0 : Tm := .ite .ff (.bin .quot (.lit 1) (.lit 0)) (.lit 5)
+example : bigEval 2 C02_skip_div0 = some (.lit 5) := by decide
+example : evalFuel 5 C02_skip_div0 = .lit 5 := by decide
+example : Big C02_skip_div0 (.lit 5) := Big.iteF (Big.val rfl) (Big.val rfl)
+
+/-- `even = λn. if n == 0 then true else odd (n - 1); odd = λn. if n == 0 then false else even (n - 1); even 4`
+(inside a group of two, `even` is index 1 and `odd` index 0; one more under the `λ`). -/
+def C02_even_odd (k : Int) : Tm :=
+  .letg (.cons 0 (.pi 2 false .int .bool)
+          (.lam 2 false .int
+            (.ite (.bin .eq (.var 2 0) (.lit 0)) .tt
+              (.app (.var 1 1) (.bin .diff (.var 2 0) (.lit 1)))))
+        (.cons 1 (.pi 2 false .int .bool)
+          (.lam 2 false .int
+            (.ite (.bin .eq (.var 2 0) (.lit 0)) .ff
+              (.app (.var 0 2) (.bin .diff (.var 2 0) (.lit 1)))))
+        .nil))
+        (.app (.var 0 1) (.lit k))
+example : bigEval 30 (C02_even_odd 4) = some .tt := by decide
+example : bigEval 30 (C02_even_odd 3) = some .ff := by decide
+example : evalFuel 200 (C02_even_odd 4) = .tt := by decide
+example : evalFuel 200 (C02_even_odd 3) = .ff := by decide
+example : Big (C02_even_odd 4) .tt := bigEval_sound 30 _ _ (by decide)
+
+/-- `1 / 0` has no value: both interpreters say so for the fuels tried, and it is proved for all. -/
+def C02_div0 : Tm := .bin .quot (.lit 1) (.lit 0)
+example : bigEval 0 C02_div0 = none ∧ bigEval 1 C02_div0 = none ∧ bigEval 2 C02_div0 = none ∧
+    bigEval 50 C02_div0 = none := by decide
+example : evalFuel 50 C02_div0 = C02_div0 ∧ isValue C02_div0 = false := by decide
+theorem C02_div0_no_value : ¬ ∃ v, Big C02_div0 v := Big_stuck (by decide) (by decide)
+theorem C02_div0_bigEval_none : ∀ n, bigEval n C02_div0 = none :=
+  bigEval_none_of_no_value C02_div0_no_value
+-- a strict language would get stuck on the program above that skips the division
+example : (∃ v, Big C02_skip_div0 v) ∧ ¬ ∃ v, Big C02_div0 v :=
+  ⟨⟨_, Big.iteF (Big.val rfl) (Big.val rfl)⟩, C02_div0_no_value⟩
+
+-- instances of the hypotheses of the statements above
+example : isValue (.lam 2 false .int (.var 2 0)) = true := rfl                       -- group rule, `rules`
+example : Step C02_skip_div0 (.lit 5) ∧ Big (.lit 5) (.lit 5) := ⟨Step.iteF, Big.val rfl⟩  -- expansion
+example : Steps C02_skip_div0 (.lit 5) ∧ isValue (.lit 5) = true :=                    -- completeness
+  ⟨Steps.head Step.iteF Steps.refl, rfl⟩
+example : bigEval 2 C02_skip_div0 = some (.lit 5) ∧ 2 ≤ 7 := by decide               -- monotonicity
+example : step C02_div0 = none ∧ isValue C02_div0 = false := by decide               -- stuck
